@@ -388,12 +388,15 @@ def run(tier='quick'):
                 for l in lins:
                     rec(l)
                 return out
+            enc_plain = plain_fields(les)
             enc_f = plain_fields(les, mentions=True)
+            enc_mentions = enc_f - enc_plain
             dec_f = plain_fields(lds)
             rec_ = prog.records.get(ge.func.cls)
             members = {x.get('name') for x in (rec_.fields if rec_ else [])}
-            lost = sorted(f_ for f_ in dec_f if f_ not in enc_f and f_.split('.')[-1] not in
-                          {e.split('.')[-1] for e in enc_f} and not f_.startswith(('local', 'const'))
+            lost = sorted(f_ for f_ in dec_f if f_ not in enc_plain
+                          and f_.split('.')[-1] not in enc_mentions and f_.split('.')[0].split('[')[0] not in enc_mentions
+                          and not f_.startswith(('local', 'const'))
                           and f_.split('.')[0].split('[')[0] in members)
             if lost:
                 bad = ('the decoder stores %s (compared by operator==) but no encoder path writes that field: '
